@@ -674,6 +674,67 @@ def run(ctx):
         if {tuple(a), tuple(b)} == {("root", "start"), ("root", "end")}:
             return isinstance(c.ops[0], ast.Is)
         return None
+    # ---- K5 neighbour short cuts: a return whose triple is written out from start/end/their parents under an identity guard
+    from .common import resolve_local
+
+    def canon(e):
+        e = resolve_local(w, e) if isinstance(e, ast.Name) and e.id not in (start, end) else e
+        t = norm(e)
+        return t.replace(start, "S").replace(end, "E") if isinstance(e, (ast.Name, ast.Attribute)) else t
+
+    def triple_of(val):
+        if not (isinstance(val, ast.Tuple) and len(val.elts) == 3):
+            return None
+        out = []
+        for el in val.elts:
+            if isinstance(el, ast.Tuple):
+                if not all(isinstance(x, ast.Name) for x in el.elts):
+                    return None
+                out.append(tuple(canon(x) for x in el.elts))
+            elif isinstance(el, ast.Call) and norm(el.func) == "tuple" and not el.args:
+                out.append(())
+            elif isinstance(el, ast.Name) or isinstance(el, ast.Attribute):
+                out.append(canon(el))
+            else:
+                return None
+        return tuple(out)
+    shortcut = set()
+    for r in rets:
+        tr = triple_of(r.ast.value) if r.ast.value is not None else None
+        if tr is None or any(isinstance(x, str) and x not in ("S", "E", "S.parent", "E.parent") for x in tr if not isinstance(x, tuple)):
+            continue
+        facts_ = set()
+        for c, o, g in cfg.guards_of(r):
+            if isinstance(c, ast.Compare) and len(c.ops) == 1 and isinstance(c.ops[0], (ast.Is, ast.IsNot)):
+                same = isinstance(c.ops[0], ast.Is) == (o is True)
+                a_, b_ = canon(c.left), canon(c.comparators[0])
+                facts_.add((frozenset([a_, b_]), same))
+        def holds(x, y, same=True):
+            return (frozenset([x, y]), same) in facts_
+        okk = None
+        if holds("S", "E"):
+            okk = tr == ((), "S", ()) or tr == ((), "E", ())
+        elif holds("E.parent", "S"):
+            okk = tr == ((), "S", ("E",))
+        elif holds("S.parent", "E"):
+            okk = tr == (("S",), "E", ())
+        elif holds("S.parent", "E.parent") and holds("S.parent", "None", False) | holds("E.parent", "None", False):
+            # siblings - or the same node twice: that case must have been taken care of before
+            if not holds("S", "E", False):
+                ctx.viol("K2", w, r.ast, "the sibling short cut (same parent) is reached although `start is end` has not been excluded: a node "
+                         "walked to itself goes up to its parent and down again instead of the empty walk", construct="walk: sibling short cut without start-is-end exclusion")
+                shortcut.add(r.id)
+                continue
+            okk = tr in ((("S",), "S.parent", ("E",)), (("S",), "E.parent", ("E",)))
+        if okk is True:
+            ctx.inst("K2", w, r.ast, "neighbour short cut %s under its identity guard" % (tr,))
+            ctx.inst("K1", w, r.ast, "short cut taken only for nodes linked by a parent reference (same tree)")
+            shortcut.add(r.id)
+        elif okk is False:
+            ctx.viol("K2", w, r.ast, "the short cut returns %s, which is not the walk between the two nodes its guard describes" % (tr,),
+                     construct="walk: short cut triple %s" % (tr,))
+            shortcut.add(r.id)
+    rets = [r for r in rets if r.id not in shortcut]
     for r in rets:
         ok = False
         for c, o, g in cfg.guards_of(r):
